@@ -1,5 +1,5 @@
 #!/bin/bash
 # usage: seed_matrix_par.sh [seed names...]   like seed_matrix.sh, SEED_PAR seeds at a time (default 4), output sorted by seed
 cd "$(dirname "$(readlink -f "$0")")/.."
-seeds="$@"; [ -z "$seeds" ] && seeds=$(ls seeded | grep -v "^harmless_" | grep -v MATRIX)
+seeds="$@"; [ -z "$seeds" ] && seeds=$(for d in seeded/*/; do n=$(basename $d); [ -f $d/patch.diff ] && [ "${n#harmless_}" = "$n" ] && echo $n; done)
 echo $seeds | tr ' ' '\n' | xargs -P ${SEED_PAR:-4} -I{} bash tools/seed_one.sh {} | sort
